@@ -222,9 +222,10 @@ DrawOp(r, S) ==
     [] k = "Annotate" -> base @@ [x |-> IF Profile = "io" /\ d[11] % 2 = 0 THEN "MODEL" ELSE Pick(<<rx, mt, gn, "MODEL">>, d[8]),
                                   v |-> 1 + (d[9] % 5), via |-> d[10] % 3]
     [] k = "SetAttr" ->
-         LET f == Pick(<<"name", "formula", "charge", "subsys", "name", "charge">>, d[8]) IN
-         base @@ [field |-> f, x |-> IF f \in {"formula", "charge"} THEN mt ELSE IF f = "subsys" THEN rx ELSE Pick(<<rx, mt, gn>>, d[9]),
-                  v |-> IF f = "charge" THEN Pick(<<99, 0, 2, -1>>, d[10]) ELSE 1 + (d[10] % 3)]
+         LET f == Pick(<<"name", "formula", "charge", "subsys", "name", "charge", "comp">>, d[8]) IN
+         base @@ [field |-> f, x |-> IF f \in {"formula", "charge"} THEN mt ELSE IF f = "subsys" THEN rx
+                                     ELSE IF f = "comp" THEN Pick(<<"m1", "m2">>, d[9]) ELSE Pick(<<rx, mt, gn>>, d[9]),
+                  v |-> IF f = "charge" THEN Pick(<<99, 0, 2, -1>>, d[10]) ELSE IF f = "comp" THEN Pick(<<3, 1, 3>>, d[10]) ELSE 1 + (d[10] % 3)]
     [] k = "Copy" -> [a |-> k, s |-> 1, t |-> 2, kind |-> Pick(<<"copy", "deepcopy", "pickle">>, d[8])]
     [] k \in {"Merge", "MergeNew"} -> [a |-> k, s |-> s, t |-> 3 - s, obj |-> Pick(<<"left", "left", "right", "sum">>, d[8])]
     [] k = "AddArith" -> [a |-> k, s |-> s, t |-> IF d[10] % 3 = 0 THEN s ELSE 3 - s, r |-> rx, q |-> rx2,
@@ -258,6 +259,7 @@ IoOps ==
         [a |-> "Annotate", s |-> 1, x |-> "g1", v |-> 4, via |-> 0],
         [a |-> "SetAttr", s |-> 1, x |-> "m1", field |-> "charge", v |-> 0],
         [a |-> "SetAttr", s |-> 1, x |-> "m1", field |-> "formula", v |-> 2],
+        [a |-> "SetAttr", s |-> 1, x |-> "m2", field |-> "comp", v |-> 3],
         [a |-> "SetBounds", s |-> 1, r |-> "r1", lo |-> 1500, hi |-> 2000],
         [a |-> "SetDirection", s |-> 1, dir |-> "min"]}
 \* copy vocabulary: two models (slot 2 = copy of slot 1, seed model 2), edits on either side, detached results of
